@@ -205,6 +205,12 @@ def generate(rng, tier, index):
         files[path] = lines
 
     emit(res[0])
+    # a header of comment / blank lines that an application may have read
+    # (readline()) from the open file before handing it to the loader
+    header = rng.choice([0, 0, 1, 2, 3])
+    if header:
+        files[cfg_order[0]][0:0] = (["# format: zconfig 1", "",
+                                     "#\u00e9 second header line"][:header])
     # ---- schema ----------------------------------------------------------------
     sch_home = rng.choice(dirs[1:5])
     sch = {"top": os.path.join(sch_home, top_name(".xml"))}
@@ -297,6 +303,7 @@ def generate(rng, tier, index):
             "config_order": cfg_order, "schema_top": sch["top"],
             "schema_files": sch_files, "types": sorted(types),
             "expect_k": expect_k, "expect_s": expect_s,
+            "header_lines": header, "bom": rng.random() < 0.3,
             "fragment_case": rng.choice(
                 ["include", "extends", "import-src", "loadurl-config",
                  "loadurl-schema", "loadurl-schema-same-loader"])}
@@ -411,7 +418,14 @@ ENTRIES = ["abs-path", "rel-path", "rel-dot", "rel-updown", "url", "url1",
            "file-abs", "file-rel"]
 
 
-def _enter(entry, full, loader_url, loader_file):
+def _enter(entry, full, loader_url, loader_file, preread=0):
+    if entry == "file-preread":
+        # the application has consumed the header lines already; the loader
+        # is handed the stream where it stands
+        with open(full, encoding="utf-8") as f:
+            for _ in range(preread):
+                f.readline()
+            return loader_file(f)
     if entry == "abs-path":
         return loader_url(full)
     if entry == "rel-path":
@@ -533,14 +547,17 @@ def _execute(plan, out, root, root_b, scratch):
         cfull = os.path.join(root, plan["config_top"])
         want = {"k": plan["expect_k"],
                 "s": [[n, ks] for n, ks in plan["expect_s"]]}
-        for entry in ENTRIES:
+        header = plan.get("header_lines", 0)
+        if header:
+            probe("file-object-read-from-before-the-load")
+        for entry in ENTRIES + (["file-preread"] if header else []):
             w.begin_op("config:" + entry)
 
             def run():
                 cfg, _h = _enter(
                     entry, cfull,
                     lambda u: ZConfig.loadConfig(schema, u),
-                    lambda f: ZConfig.loadConfigFile(schema, f))
+                    lambda f: ZConfig.loadConfigFile(schema, f), header)
                 return {"ok": True, "got": {
                     "k": list(cfg.k),
                     "s": [[s.getSectionName(), list(s.k)] for s in cfg.s]}}
@@ -559,6 +576,49 @@ def _execute(plan, out, root, root_b, scratch):
                           "configuration by %s gives %r, expected %r"
                           % (entry, o["got"], want))
             check_io("config", entry, plan["config_order"], True)
+        # ---- the top resource begins with a byte order mark -------------------
+        # (whatever ZConfig makes of U+FEFF -- today it is an ordinary
+        # character, so the first line is refused -- every entry point makes
+        # the same of it)
+        if plan.get("bom"):
+            bfull = os.path.join(os.path.dirname(cfull),
+                                 "bom-" + os.path.basename(cfull).strip())
+            with open(cfull, encoding="utf-8") as f:
+                btext = f.read()
+            with open(bfull, "w", encoding="utf-8") as f:
+                f.write("\ufeff" + btext)
+            first = None
+            for entry in ENTRIES:
+                w.begin_op("config:bom:" + entry)
+
+                def run6():
+                    cfg, _h = _enter(
+                        entry, bfull,
+                        lambda u: ZConfig.loadConfig(schema, u),
+                        lambda f: ZConfig.loadConfigFile(schema, f))
+                    return {"ok": True, "got": {
+                        "k": list(cfg.k),
+                        "s": [[s.getSectionName(), list(s.k)]
+                              for s in cfg.s]}}
+                o = ops.guarded(run6)
+                w.end_op("ok" if o["ok"] else o["cls"])
+                out["evaluations"] += 1
+                if o["ok"]:
+                    sig = ["ok", o["got"]]
+                else:
+                    msg = str(o.get("msg"))
+                    if isinstance(o.get("url"), str) and o["url"]:
+                        msg = msg.replace(o["url"], "<URL>")
+                    sig = [o["cls"], o.get("lineno"), msg]
+                if first is None:
+                    first = (entry, sig)
+                elif sig != first[1]:
+                    violation("entry-points-differ", "config-with-bom",
+                              "a configuration beginning with U+FEFF: by %s "
+                              "%r, by %s %r" % (entry, sig, first[0],
+                                                first[1]))
+            os.unlink(bfull)
+            probe("top-resource-begins-with-bom:" + first[1][0])
         # ---- chdir to the twin tree: the same relative names, other files ----
         if plan["cwd"] != "/":
             cwd_b = os.path.join(root_b, plan["cwd"])
@@ -595,6 +655,29 @@ def _execute(plan, out, root, root_b, scratch):
                               "after chdir (%s) one ConfigLoader given the "
                               "relative path gives %r, expected %r"
                               % (where, o["got"], wnt))
+                # ... and a file object opened by the relative name now
+                w.begin_op("config:%s:file-rel-one-loader" % where)
+
+                def run7():
+                    with open(os.path.relpath(cf), encoding="utf-8") as f:
+                        cfg, _h = ldc.loadFile(f)
+                    return {"ok": True, "got": {
+                        "k": list(cfg.k),
+                        "s": [[x.getSectionName(), list(x.k)]
+                              for x in cfg.s]}}
+                o = ops.guarded(run7)
+                w.end_op("ok" if o["ok"] else o["cls"])
+                out["evaluations"] += 1
+                if not o["ok"]:
+                    violation("load-failed", "config-after-chdir",
+                              "after chdir (%s) one ConfigLoader given a file "
+                              "opened by its relative name raised %s"
+                              % (where, ops.brief(o)))
+                elif o["got"] != wnt:
+                    violation("wrong-result", "config-after-chdir",
+                              "after chdir (%s) one ConfigLoader given a file "
+                              "opened by its relative name gives %r, "
+                              "expected %r" % (where, o["got"], wnt))
                 for entry in ("rel-path", "file-rel"):
                     w.begin_op("config:%s:%s" % (where, entry))
 
